@@ -1547,15 +1547,6 @@ func judgeHist(res *hx.Result, cf *hx.Cases, h hist, unsync bool) {
 		known = "unsync_local" // a local call ran unsynchronised beside another call: exactly the finding's trigger
 	}
 	bad := false
-	if !linSearch(h.Ops) {
-		bad = true
-		d := "no sequential order of the registry explains this history (real-time order respected): " + text
-		if known != "" {
-			res.FailKnown("not-linearizable", d, known)
-		} else {
-			res.Fail("not-linearizable", d)
-		}
-	}
 	if msg := idOracle(h); msg != "" {
 		bad = true
 		d := msg + "; history: " + text
@@ -1563,6 +1554,15 @@ func judgeHist(res *hx.Result, cf *hx.Cases, h hist, unsync bool) {
 			res.FailKnown("ids-distinct-concurrent", d, known)
 		} else {
 			res.Fail("ids-distinct-concurrent", d)
+		}
+	}
+	if !linSearch(h.Ops) {
+		bad = true
+		d := "no sequential order of the registry explains this history (real-time order respected): " + text
+		if known != "" {
+			res.FailKnown("not-linearizable", d, known)
+		} else {
+			res.Fail("not-linearizable", d)
 		}
 	}
 	if msg := signalOracle(h); msg != "" {
